@@ -6,6 +6,7 @@
 //                                              slice and destroy views of ONE shared array + private arrays
 //   drv_threads c14soft <T> <seed> <rounds>    (default build) the same through soft links only
 //
+//   (c12: every worker also runs Stack constructors with an injected allocation fault, c14soft: soft links of every class)
 //   drv_threads sched                          line protocol on stdin (same lines as `adept_model threads`): every operation is
 //                                              handed to the named REAL thread, one at a time (deterministic schedule), and the
 //                                              observable (active_stack() of that thread, n_links(), n_storage_objects()) is
@@ -35,6 +36,19 @@
 
 using namespace adept;
 
+// ---- allocation faults (C12): operator new[] is interposed; in the thread that armed it, the (t_fail_in+1)-th array
+// allocation fails ONCE with std::bad_alloc (the three arrays StackStorageOrig::initialize allocates are the first three
+// array allocations of a Stack constructor).  Thread-local: arming a fault in one thread never disturbs another.
+static thread_local int t_fail_in = -1;
+static thread_local long t_fired = 0;
+// (linked with -Wl,--wrap=_Znam: the sanitizer runtimes define operator new[] themselves, so it cannot be replaced; every
+// reference to operator new[](size_t) in the driver and in the library objects is routed here instead.)
+extern "C" void* __real__Znam(std::size_t sz);
+extern "C" void* __wrap__Znam(std::size_t sz) {
+  if (t_fail_in >= 0 && t_fail_in-- == 0) { ++t_fired; throw std::bad_alloc(); }
+  return __real__Znam(sz);
+}
+
 namespace verif {
 
 struct Rng {
@@ -56,6 +70,9 @@ struct Result {
   long wrong_active = 0;     // active_stack() != own stack while it should be the own stack
   long wrong_null = 0;       // active_stack() != 0 while this thread has no active stack
   long samples_active = 0, samples_null = 0;
+  long max_alloc_ops = 0;                    // largest n_allocated_operations() seen (growth beyond ADEPT_INITIAL_STACK_LENGTH)
+  long fault_samples = 0, fault_wrong = 0;   // after a Stack constructor that threw std::bad_alloc: active_stack() changed
+  long links_changed = 0, links_samples = 0; // C14: n_links() of shared data changed by a soft link / something derived from it
   std::string exception;     // what() of an exception that escaped the workload
   void push(double d) { uint64_t u; std::memcpy(&u, &d, 8); bits.push_back(u); }
   void pushi(long v) { bits.push_back((uint64_t)v); }
@@ -89,6 +106,20 @@ static void check_null(Result& r) {
   if (active_stack() != 0) r.wrong_null++;
 }
 
+// A Stack constructor whose `step`-th array allocation (0,1,2: multiplier_, index_, statement_ of
+// StackStorageOrig::initialize) fails.  Whatever the step, the thread's active pointer must be what it was before: the
+// object never existed, so it cannot be this thread's active stack.  `expect` = the stack active before (0 = none).
+static void faulted_construction(Result& r, int step, bool activate, const Stack* expect) {
+  bool threw = false;
+  long fired0 = t_fired;
+  t_fail_in = step;
+  try { Stack doomed(activate); } catch (const std::bad_alloc&) { threw = true; } catch (const stack_already_active&) { }
+  t_fail_in = -1;
+  r.fault_samples++;
+  r.pushi(threw ? 1 : 0); r.pushi(t_fired - fired0);
+  if (active_stack() != expect) r.fault_wrong++;
+}
+
 static adouble scalar_program(Rng& g, std::vector<adouble>& x) {
   int n = (int)x.size();
   adouble y = 0.0;
@@ -114,6 +145,9 @@ static adouble scalar_program(Rng& g, std::vector<adouble>& x) {
 static void c12_workload(uint64_t seed, int k, int rounds, Result& r, Stack* given = 0) {
   Rng g(seed * 1000003ull + (uint64_t)k * 7919ull + 17ull);
   check_null(r);                         // before this thread owns a stack
+  // allocation faults in Stack constructors of this thread BEFORE it owns a stack (every fault point, activating and not)
+  for (int f = 0; f < 2; ++f) faulted_construction(r, g.below(3), g.below(4) != 0, 0);
+  check_null(r);
   {
     struct Owner {
       Stack* p; bool mine;
@@ -156,7 +190,7 @@ static void c12_workload(uint64_t seed, int k, int rounds, Result& r, Stack* giv
       }
       // ---- arrays: allocation (Storage constructor/destructor), views of own data, array statements, Jacobian
       {
-        int m = 2 + g.below(4);
+        int m = 2 + g.below(8);                   // up to 9 dependents: more than one block of ADEPT_MULTIPASS_SIZE in the Jacobians
         aVector X(n); aMatrix A(m, n);
         Vector xv(n); Matrix av(m, n);
         for (int i = 0; i < n; ++i) xv(i) = g.val();
@@ -233,6 +267,9 @@ static void c12_workload(uint64_t seed, int k, int rounds, Result& r, Stack* giv
           } catch (const adept::exception& e) { r.pushs(e.what()); }
         }
         r.pushi(stack.n_statements()); r.pushi(stack.n_operations()); r.pushi(stack.n_gradients_registered());
+        // how far THIS stack's buffers have grown is a function of this thread's recordings only
+        r.pushi((long)stack.n_allocated_operations()); r.pushi((long)stack.n_allocated_statements());
+        if ((long)stack.n_allocated_operations() > r.max_alloc_ops) r.max_alloc_ops = (long)stack.n_allocated_operations();
         check_active(r, &stack);
       }
       if (g.below(3) == 0) {
@@ -240,19 +277,36 @@ static void c12_workload(uint64_t seed, int k, int rounds, Result& r, Stack* giv
         check_null(r);                    // no active stack in this thread now
         std::this_thread::yield();
         check_null(r);
-        stack.activate();
+        if (round < 24 || g.below(8) == 0) {
+          faulted_construction(r, g.below(3), true, 0);      // a second stack of this thread fails to come into being
+          check_null(r);
+        }
+        stack.activate();                 // ... which must not prevent the thread from using its own stack again
         check_active(r, &stack);
       }
     }
     check_active(r, &stack);
+    // while this thread's stack is active: the doomed constructor may fail with bad_alloc (allocation comes first) and
+    // must leave the owner's stack active
+    faulted_construction(r, g.below(3), true, &stack);
+    check_active(r, &stack);
   }
   check_null(r);                         // ~Stack cleared this thread's pointer
+  faulted_construction(r, g.below(3), true, 0);
+  {                                      // after a failed construction a new Stack can be created and works
+    Stack again;
+    check_active(r, &again);
+    adouble x = 1.5; again.new_recording(); adouble y = x * x; y.set_gradient(1.0); again.compute_adjoint();
+    r.push(x.get_gradient());
+  }
+  check_null(r);
 }
 
 static int run_c12(int T, uint64_t seed, int rounds) {
   std::vector<Result> solo(T), par(T);
   for (int k = 0; k < T; ++k) {
-    c12_workload(seed, k, rounds, solo[k]);
+    try { c12_workload(seed, k, rounds, solo[k]); }
+    catch (const std::exception& e) { std::printf("exc solo %d %s\n", k, e.what()); }
     std::printf("solo %d n=%zu h=%016llx\n", k, solo[k].bits.size(), (unsigned long long)solo[k].hash());
   }
   // the main thread and two extra threads own no stack: they sample active_stack() while the workers run
@@ -296,11 +350,15 @@ static int run_c12(int T, uint64_t seed, int rounds) {
     std::printf("par %d n=%zu h=%016llx eq=%d\n", k, par[k].bits.size(), (unsigned long long)par[k].hash(), eq ? 1 : 0);
     if (!par[k].exception.empty()) std::printf("exc %d %s\n", k, par[k].exception.c_str());
   }
-  long wa = 0, wn = 0, sa = 0, sn = 0;
+  long wa = 0, wn = 0, sa = 0, sn = 0, fs = 0, fw = 0, mo = 0;
   for (int k = 0; k < T; ++k) {
     wa += par[k].wrong_active + solo[k].wrong_active; wn += par[k].wrong_null + solo[k].wrong_null;
     sa += par[k].samples_active + solo[k].samples_active; sn += par[k].samples_null + solo[k].samples_null;
+    fs += par[k].fault_samples + solo[k].fault_samples; fw += par[k].fault_wrong + solo[k].fault_wrong;
+    if (par[k].max_alloc_ops > mo) mo = par[k].max_alloc_ops;
   }
+  std::printf("flt fault_samples=%ld fault_active_changed=%ld initial_stack_length=%ld max_allocated_operations=%ld\n", fs, fw,
+              (long)ADEPT_INITIAL_STACK_LENGTH, mo);
   std::printf("act owner_samples=%ld owner_wrong=%ld stackless_samples=%ld stackless_nonzero=%ld idle_threads_samples=%ld idle_threads_nonzero=%ld main_samples=%ld main_nonzero=%ld\n",
               sa, wa, sn, wn, idle_samples[0] + idle_samples[1], idle_bad[0] + idle_bad[1], main_samples, main_bad);
   std::printf("stor live=%ld\n", (long)n_storage_objects());
@@ -314,7 +372,8 @@ static int run_c12(int T, uint64_t seed, int rounds) {
 static int run_c12omp(int T, uint64_t seed, int rounds) {
   std::vector<Result> solo(T), par(T);
   for (int k = 0; k < T; ++k) {
-    c12_workload(seed, k, rounds, solo[k]);
+    try { c12_workload(seed, k, rounds, solo[k]); }
+    catch (const std::exception& e) { std::printf("exc solo %d %s\n", k, e.what()); }
     std::printf("solo %d n=%zu h=%016llx\n", k, solo[k].bits.size(), (unsigned long long)solo[k].hash());
   }
   long created0 = (long)n_storage_objects_created(), deleted0 = (long)n_storage_objects_deleted();
@@ -334,11 +393,15 @@ static int run_c12omp(int T, uint64_t seed, int rounds) {
     std::printf("par %d n=%zu h=%016llx eq=%d\n", k, par[k].bits.size(), (unsigned long long)par[k].hash(), eq ? 1 : 0);
     if (!par[k].exception.empty()) std::printf("exc %d %s\n", k, par[k].exception.c_str());
   }
-  long wa = 0, wn = 0, sa = 0, sn = 0;
+  long wa = 0, wn = 0, sa = 0, sn = 0, fs = 0, fw = 0, mo = 0;
   for (int k = 0; k < T; ++k) {
     wa += par[k].wrong_active + solo[k].wrong_active; wn += par[k].wrong_null + solo[k].wrong_null;
     sa += par[k].samples_active + solo[k].samples_active; sn += par[k].samples_null + solo[k].samples_null;
+    fs += par[k].fault_samples + solo[k].fault_samples; fw += par[k].fault_wrong + solo[k].fault_wrong;
+    if (par[k].max_alloc_ops > mo) mo = par[k].max_alloc_ops;
   }
+  std::printf("flt fault_samples=%ld fault_active_changed=%ld initial_stack_length=%ld max_allocated_operations=%ld\n", fs, fw,
+              (long)ADEPT_INITIAL_STACK_LENGTH, mo);
   std::printf("act owner_samples=%ld owner_wrong=%ld stackless_samples=%ld stackless_nonzero=%ld idle_threads_samples=0 idle_threads_nonzero=0 main_samples=0 main_nonzero=0\n",
               sa, wa, sn, wn);
   // the global bookkeeping counters are exact after the join: the parallel phase created and deleted exactly as many
@@ -354,8 +417,128 @@ static int run_c12omp(int T, uint64_t seed, int rounds) {
 // ---------------------------------------------------------------------------------------------------------------
 // `own` is this thread's handle on the shared data (created by main before the threads start; in the soft build it is a
 // soft link).  All further views are made from `own` (an Array object is not itself shared between threads, its Storage is).
+// One object of every class that has a soft_link() member (Array of rank 1..3, every SpecialMatrix kind), created by
+// the main thread and only READ by the workers: each worker takes its own soft links from the shared OBJECTS, through
+// const and non-const receivers (two different member functions), and derives links, copies and views from them.
+struct Zoo {
+  Vector V; Matrix M; Array3D C;
+  SquareMatrix Q; DiagMatrix D; TridiagMatrix Tr; PentadiagMatrix Pe; SymmMatrix Sy; LowerMatrix Lo; UpperMatrix Up;
+  explicit Zoo(int n) : V(n), M(n, n), C(3, n, 4), Q(n), D(n), Tr(n), Pe(n), Sy(n), Lo(n), Up(n) {
+    for (int i = 0; i < n; ++i) {
+      V(i) = 1.0 + i * 0.5;
+      D(i, i) = 3.0 + i;
+      for (int j = 0; j < n; ++j) { M(i, j) = 1.0 + i * 0.25 + j * 0.125; Q(i, j) = 2.0 + i - j * 0.5; }
+      for (int j = 0; j <= i; ++j) { Sy(i, j) = 1.0 + i + j * 0.125; Lo(i, j) = 4.0 + i * 0.5 - j; Up(j, i) = 5.0 - i * 0.25 + j; }
+      for (int j = (i > 1 ? i - 1 : 0); j <= i + 1 && j < n; ++j) Tr(i, j) = 6.0 + i + j * 0.5;
+      for (int j = (i > 2 ? i - 2 : 0); j <= i + 2 && j < n; ++j) Pe(i, j) = 7.0 + i * 0.5 + j;
+      for (int a = 0; a < 3; ++a) for (int b = 0; b < 4; ++b) C(a, i, b) = a + i * 0.5 + b * 0.25;
+    }
+  }
+  template <class A> static long nl(const A& a) { A& m = const_cast<A&>(a); return m.storage() ? (long)m.storage()->n_links() : -1; }
+  long links() const { return nl(V) + nl(M) + nl(C) + nl(Q) + nl(D) + nl(Tr) + nl(Pe) + nl(Sy) + nl(Lo) + nl(Up); }
+  static const int N = 10;
+};
+
+// single-threaded invariant, sampled everywhere: a soft link and everything derived from it never changes n_links() of the
+// data it refers to, and owns no Storage itself
+template <class A> static void expect_links(Result& r, const A& shared, long before) {
+  r.links_samples++;
+  if (Zoo::nl(shared) != before) r.links_changed++;
+}
+template <class A> static void expect_soft(Result& r, const A& a) {
+  r.links_samples++;
+  if (const_cast<A&>(a).storage() != 0) r.links_changed++;
+}
+
+template <class M>
+static void soft_special(Rng& g, M& shared, Result& r) {
+  long before = Zoo::nl(shared);
+  int dim = shared.dimension(0);
+  {
+    const M& cshared = shared;
+    const M sc = cshared.soft_link();            // const receiver:     const SpecialMatrix soft_link() const
+    M sn = shared.soft_link();                   // non-const receiver: SpecialMatrix soft_link()
+    expect_links(r, shared, before); expect_soft(r, sc); expect_soft(r, sn);
+    M& base = g.below(2) ? const_cast<M&>(sc) : sn;
+    M l; l >>= base;                             // link to a soft link
+    M l2; l2 >>= const_cast<M&>(static_cast<const M&>(cshared.soft_link()));   // link to the temporary of the const overload
+    M c(base);                                   // copy (shares)
+    const M& cbase = base; M c2(cbase);          // copy through the const copy constructor
+    Vector d = base.diag_vector();               // views of the soft link
+    int i0 = 1 + g.below(2);
+    M sub = base.submatrix_on_diagonal(i0, dim - 2);
+    expect_links(r, shared, before);
+    expect_soft(r, l); expect_soft(r, l2); expect_soft(r, c); expect_soft(r, c2); expect_soft(r, d); expect_soft(r, sub);
+    r.push(sum(d)); r.push(l(0, 0)); r.push(l2(1, 1)); r.push(c(dim - 1, dim - 1)); r.push(c2(2, 2)); r.push(sub(0, 0));
+    try { M bad = base.submatrix_on_diagonal(3, dim + 2); r.pushi(-1); }        // rejected view: takes nothing
+    catch (const adept::exception&) { r.pushi(1); }
+    expect_links(r, shared, before);
+  }
+  expect_links(r, shared, before);
+}
+
+template <int Rank>
+static void soft_array(Rng& g, Array<Rank, Real, false>& shared, Result& r) {
+  typedef Array<Rank, Real, false> A;
+  long before = Zoo::nl(shared);
+  {
+    const A& cshared = shared;
+    const A sc = cshared.soft_link();            // const receiver
+    A sn = shared.soft_link();                   // non-const receiver
+    expect_links(r, shared, before); expect_soft(r, sc); expect_soft(r, sn);
+    A& base = g.below(2) ? const_cast<A&>(sc) : sn;
+    A l; l >>= base;
+    A l2; l2 >>= const_cast<A&>(static_cast<const A&>(cshared.soft_link()));
+    A c(base);
+    const A& cbase = base; A c2(cbase);
+    expect_links(r, shared, before);
+    expect_soft(r, l); expect_soft(r, l2); expect_soft(r, c); expect_soft(r, c2);
+    r.push(sum(l)); r.push(sum(c2)); r.push(maxval(l2)); r.push(minval(c));
+    expect_links(r, shared, before);
+  }
+  expect_links(r, shared, before);
+}
+
+// views of soft links that differ per rank (slices, empty and rejected views)
+static void soft_views(Rng& g, Zoo& z, Result& r) {
+  long before = z.links();
+  int n = z.V.dimension(0);
+  {
+    Vector sv = z.V.soft_link(); const Matrix sm = static_cast<const Matrix&>(z.M).soft_link(); Array3D sc = z.C.soft_link();
+    Matrix& m = const_cast<Matrix&>(sm);
+    int i = g.below(n - 2);
+    Vector a = sv(range(i, i + 2)); Vector e = sv(range(i + 1, i));           // slice, EMPTY slice
+    Vector col = m(__, i); Vector row = m(i, range(1, n - 2)); Matrix blk = m(range(i, i + 1), range(0, 2));
+    Matrix eb = m(range(i, i + 1), range(2, 1));                               // empty in the second position
+    Matrix face = sc(g.below(3), __, __); Vector line = sc(1, i, __); Matrix mt = m.T(); Vector dg = m.diag_vector();
+    expect_soft(r, a); expect_soft(r, e); expect_soft(r, col); expect_soft(r, row); expect_soft(r, blk); expect_soft(r, eb);
+    expect_soft(r, face); expect_soft(r, line); expect_soft(r, mt); expect_soft(r, dg);
+    r.push(sum(a)); r.pushi(e.empty() ? 1 : 0); r.pushi(eb.empty() ? 1 : 0); r.push(sum(col) + sum(row) + sum(blk));
+    r.push(sum(face) + sum(line) + sum(mt(0, __)) + sum(dg));
+    try { Vector neg = sv(range(i + 2, i)); r.pushi(-1); } catch (const adept::exception&) { r.pushi(1); }   // negative extent: rejected
+    r.links_samples++; if (z.links() != before) r.links_changed++;
+  }
+  r.links_samples++; if (z.links() != before) r.links_changed++;
+}
+
+static void soft_zoo(Rng& g, Zoo& z, Result& r) {
+  switch (g.below(Zoo::N + 1)) {
+  case 0: soft_array<1>(g, z.V, r); break;
+  case 1: soft_array<2>(g, z.M, r); break;
+  case 2: soft_array<3>(g, z.C, r); break;
+  case 3: soft_special(g, z.Q, r); break;
+  case 4: soft_special(g, z.D, r); break;
+  case 5: soft_special(g, z.Tr, r); break;
+  case 6: soft_special(g, z.Pe, r); break;
+  case 7: soft_special(g, z.Sy, r); break;
+  case 8: soft_special(g, z.Lo, r); break;
+  case 9: soft_special(g, z.Up, r); break;
+  default: soft_views(g, z, r); break;
+  }
+}
+
 template <bool Soft>
-static void c14_workload(uint64_t seed, int k, int rounds, Matrix& own, SymmMatrix& owns, int T, Result& r) {
+static void c14_workload(uint64_t seed, int k, int rounds, Matrix& own, SymmMatrix& owns, int T, Result& r, Zoo* zoo) {
   Rng g(seed * 2000003ull + (uint64_t)k * 104729ull + 5ull);
   int n = own.dimension(0);
   // rows [0,T) of the shared matrix: row k is WRITTEN by thread k only (through a view); rows [T,n) are read-only
@@ -363,7 +546,23 @@ static void c14_workload(uint64_t seed, int k, int rounds, Matrix& own, SymmMatr
   // reference count is the library's)
   int lo = T, hi = n - 1;
   for (int round = 0; round < rounds; ++round) {
-    switch (g.below(7)) {
+    if (Soft && zoo && g.below(3) == 0) { soft_zoo(g, *zoo, r); continue; }
+    switch (g.below(9)) {
+    case 7: {                                                       // EMPTY views of the shared data (zero extent) and copies of them
+      int i = lo + g.below(n - T - 1);
+      Vector e = own(range(i + 1, i), g.below(n)); Vector e2(e); Vector e3;
+      try { e3 >>= e; } catch (const adept::exception&) { r.pushi(-7); }
+      Matrix eb = own(range(lo, hi), range(3, 2)); Matrix eb2 = eb(__, __);
+      SymmMatrix es; es >>= owns;
+      r.pushi((e.empty() ? 1 : 0) + (e2.empty() ? 2 : 0) + (e3.empty() ? 4 : 0) + (eb.empty() ? 8 : 0) + (eb2.empty() ? 16 : 0));
+    } break;
+    case 8: {                                                       // REJECTED views (negative extent / out of range): exception caught here
+      int i = lo + g.below(n - T - 2);
+      try { Vector neg = own(range(i + 2, i), 0); r.pushi(-1); } catch (const adept::exception&) { r.pushi(1); }
+      try { Matrix neg2 = own(range(lo, hi), range(4, 1)); r.pushi(-2); } catch (const adept::exception&) { r.pushi(2); }
+      try { SymmMatrix bad = owns.submatrix_on_diagonal(2, n + 3); r.pushi(-3); } catch (const adept::exception&) { r.pushi(3); }
+      Vector okv = own(range(i, i + 1), 1); r.push(sum(okv));
+    } break;
     case 0: { Matrix B(own); r.push(B(lo + g.below(n - T), g.below(n))); } break;                // copy-construct (shares)
     case 1: { Matrix L; L >>= own; Matrix L2; L2 >>= L; r.push(L2(lo + g.below(n - T), g.below(n))); } break;   // link, link of link
     case 2: { Vector c = own(range(lo, hi), g.below(n)); Vector c2 = c(range(0, 3)); r.push(sum(c) + sum(c2)); } break;   // slices
@@ -454,16 +653,21 @@ static int run_c14(int T, uint64_t seed, int rounds) {
       if (Soft) {
         if (k % 2) { const Matrix sl = static_cast<const Matrix&>(*A).soft_link(); own[k] >>= const_cast<Matrix&>(sl); }
         else own[k] >>= A->soft_link();
-        owns[k] >>= S->soft_link();
+        if (k % 2 == 0) { const SymmMatrix ss = static_cast<const SymmMatrix&>(*S).soft_link(); owns[k] >>= const_cast<SymmMatrix&>(ss); }
+        else owns[k] >>= S->soft_link();
       }
       else      { own[k] >>= *A;            owns[k] >>= *S; }
     }
     long links_before = A->storage()->n_links();
     std::printf("stor phase=%d links_before=%ld expect=%d\n", phase, links_before, Soft ? 1 : T + 1);
     if (links_before != (Soft ? 1 : T + 1)) bad++;
+    long slinks_before = S->storage()->n_links();
+    std::printf("stor phase=%d symm_links_before=%ld expect=%d\n", phase, slinks_before, Soft ? 1 : T + 1);
+    if (slinks_before != (Soft ? 1 : T + 1)) bad++;
+    Zoo* zoo = Soft ? new Zoo(n) : 0;
     bool drop_early = !Soft && ((seed >> 1) & 1);
     if (phase == 0) {
-      for (int k = 0; k < T; ++k) c14_workload<Soft>(seed, k, rounds, own[k], owns[k], T, solo[k]);
+      for (int k = 0; k < T; ++k) c14_workload<Soft>(seed, k, rounds, own[k], owns[k], T, solo[k], zoo);
       for (int k = 0; k < T; ++k) { own[k].clear(); owns[k].clear(); }
     } else {
       Barrier bar(T + 1);
@@ -472,7 +676,7 @@ static int run_c14(int T, uint64_t seed, int rounds) {
         th.emplace_back([&, k] {
           bar.arrive_and_wait();
           try {
-            c14_workload<Soft>(seed, k, rounds, own[k], owns[k], T, par[k]);
+            c14_workload<Soft>(seed, k, rounds, own[k], owns[k], T, par[k], zoo);
             if (!Soft) { own[k].clear(); owns[k].clear(); }    // drop this thread's handle in the thread
           } catch (const std::exception& e) { par[k].exception = e.what(); }
         });
@@ -481,10 +685,18 @@ static int run_c14(int T, uint64_t seed, int rounds) {
       for (size_t i = 0; i < th.size(); ++i) th[i].join();
       if (Soft) for (int k = 0; k < T; ++k) { own[k].clear(); owns[k].clear(); }
     }
+    if (zoo) {
+      std::printf("stor phase=%d zoo_links_after=%ld expect=%d\n", phase, zoo->links(), Zoo::N);
+      if (zoo->links() != Zoo::N) bad++;
+      delete zoo;
+    }
     if (A) {
       long links_after = A->storage()->n_links();
       std::printf("stor phase=%d links_after=%ld expect=1\n", phase, links_after);
       if (links_after != 1) bad++;
+      long slinks_after = S->storage()->n_links();
+      std::printf("stor phase=%d symm_links_after=%ld expect=1\n", phase, slinks_after);
+      if (slinks_after != 1) bad++;
       delete A; delete S;
     } else {
       std::printf("stor phase=%d creator_left_early=1\n", phase);
@@ -500,6 +712,12 @@ static int run_c14(int T, uint64_t seed, int rounds) {
     if (!eq) bad++;
     std::printf("par %d n=%zu h=%016llx eq=%d\n", k, par[k].bits.size(), (unsigned long long)par[k].hash(), eq ? 1 : 0);
     if (!par[k].exception.empty()) std::printf("exc %d %s\n", k, par[k].exception.c_str());
+  }
+  if (Soft) {
+    long ch = 0, sm = 0, chs = 0;
+    for (int k = 0; k < T; ++k) { ch += par[k].links_changed; chs += solo[k].links_changed; sm += par[k].links_samples + solo[k].links_samples; }
+    std::printf("stor soft_invariant_samples=%ld soft_links_changed_solo=%ld soft_links_changed_par=%ld\n", sm, chs, ch);
+    if (ch || chs) bad++;
   }
   if (!Soft) bad += drop_race(T, rounds > 400 ? 400 : rounds, base);
   std::printf("stor created=%ld deleted=%ld\n", (long)n_storage_objects_created() - created0, (long)n_storage_objects_deleted() - deleted0);
@@ -527,7 +745,13 @@ struct Sched {
   std::map<const Stack*, int> number;     // Stack* -> stack number + 1 (accessed by one thread at a time: hand-off)
   bool shared = false;
 
-  std::string ptr() { const Stack* p = active_stack(); std::ostringstream os; os << "ptr=" << (p ? number[p] : 0); return os.str(); }
+  std::string ptr() {
+    const Stack* p = active_stack();
+    std::ostringstream os;
+    if (p && !number.count(p)) os << "ptr=not-a-live-stack";      // the thread's pointer designates no Stack object of this run
+    else os << "ptr=" << (p ? number[p] : 0);
+    return os.str();
+  }
   std::string stor() {
     long links = 0;
     for (size_t i = 0; i < w.size(); ++i) if (!w[i]->views.empty()) { links = w[i]->views.back()->storage()->n_links(); break; }
@@ -541,6 +765,15 @@ struct Sched {
       std::string st = "ok ";
       if (me->stacks.count(a)) return "bad-op";
       try { Stack* p = new Stack; me->stacks[a] = p; number[p] = a + 1; } catch (const stack_already_active&) { st = "err "; }
+      return st + ptr();
+    }
+    if (op == "nsf") {                    // Stack constructor whose f-th array allocation fails (f = 0,1,2)
+      if (c.size() != 4 || me->stacks.count(a)) return "bad-op";
+      std::string st = "ok ";
+      t_fail_in = std::atoi(c[3].c_str());
+      try { Stack* p = new Stack; me->stacks[a] = p; number[p] = a + 1; }
+      catch (const std::bad_alloc&) { st = "fail "; } catch (const stack_already_active&) { st = "fail "; }
+      t_fail_in = -1;
       return st + ptr();
     }
     if (op == "act" || op == "deact" || op == "del") {
